@@ -31,6 +31,10 @@ use hexec::{
 use serde_json::{Value, json};
 
 const WATCHDOG_MS: u64 = 30_000;
+/// Time budget of one case; a case that exceeds it is abandoned (its threads stay parked) and reported.
+const CASE_BUDGET_MS: u64 = 60_000;
+/// After this many abandoned cases the rest of the file is skipped (a broken tree must not cost hours).
+const MAX_ABANDONED: u64 = 12;
 
 enum Cmd {
     Setup { setup: String, nw: usize, cap: usize },
@@ -57,6 +61,7 @@ enum Res {
     /// "pending" | "ok" | "panic" | "cancelled" | other diagnostics
     Join(&'static str),
     Panic(String),
+    Exited,
 }
 
 fn classify(res: Result<Out, JoinError>) -> &'static str {
@@ -86,6 +91,13 @@ fn worker(role: usize, world: Arc<World>, rx: Receiver<Cmd>, tx: Sender<Res>) {
     let mut waker: Option<Waker> = None;
     while let Ok(cmd) = rx.recv() {
         if matches!(cmd, Cmd::Exit) {
+            // everything the thread still owns is dropped BEFORE it reports its exit, so that a drop that blocks
+            // (e.g. Executor::drop spinning in wait_for_scheduling) shows up as a missing report, not as a hung join
+            drop(handle.take());
+            drop(waker.take());
+            jw.clear();
+            drop(exe.take());
+            let _ = tx.send(Res::Exited);
             break;
         }
         let r = catch_unwind(AssertUnwindSafe(|| match cmd {
@@ -224,6 +236,13 @@ struct Case {
     violations: Vec<(&'static str, Value, String)>,
     panics: Vec<String>,
     steps_done: u64,
+    t0: std::time::Instant,
+    over_budget: bool,
+    /// polls at the moment the latest completed remote wake was issued (None: no wake to account for)
+    pending_wake: Option<u32>,
+    /// the running tick started after a completed wake with no scheduler in flight: it must poll the task
+    tick_covers: Option<u32>,
+    wake_issued_at: Vec<Option<u32>>,
 }
 
 enum Arr {
@@ -284,11 +303,27 @@ impl Case {
             violations: vec![],
             panics: vec![],
             steps_done: 0,
+            t0: std::time::Instant::now(),
+            over_budget: false,
+            pending_wake: None,
+            tick_covers: None,
+            wake_issued_at: vec![None; 4],
+        }
+    }
+
+    fn budget_left(&mut self) -> u64 {
+        let used = self.t0.elapsed().as_millis() as u64;
+        if used >= CASE_BUDGET_MS {
+            self.over_budget = true;
+            0
+        } else {
+            CASE_BUDGET_MS - used
         }
     }
 
     fn settle(&mut self, r: usize) -> Arr {
-        match ctl::wait_settled(r, WATCHDOG_MS) {
+        let ms = WATCHDOG_MS.min(self.budget_left().max(2_000));
+        match ctl::wait_settled(r, ms) {
             None => {
                 self.roles[r].lost = true;
                 Arr::Hang
@@ -302,6 +337,28 @@ impl Case {
                         Res::Handle(h) => *lock(&SETUP_HANDLE) = Some(h),
                         Res::Panic(m) => self.panics.push(format!("{} during {}: {m}", self.roles[r].name, self.roles[r].cur_cmd)),
                         _ => {}
+                    }
+                }
+                if self.roles[r].cur_cmd == "tick" {
+                    // a whole tick that started after a completed cross-thread wake (no other scheduler in flight)
+                    // has drained the sync queue and run the hot list: the woken task must have been polled
+                    if let Some(p0) = self.tick_covers.take() {
+                        let t = self.world.t(1);
+                        let alive = lock(&t.produced).is_none() && t.fdrops.load(SeqCst) == 0;
+                        if alive && t.polls.load(SeqCst) == p0 {
+                            self.violations.push(("contract", json!({"site": "remote", "what": "remote-wake-lost"}),
+                                format!("wake_by_ref on another thread had returned (task alive, no other waker in flight), then the home \
+                                         thread ran a whole tick, and the task was not polled ({p0} polls before the wake, {p0} after \
+                                         the tick): the runnable task is starved")));
+                        }
+                        self.pending_wake = None;
+                    }
+                }
+                if self.roles[r].cur_cmd == "wake" {
+                    let t = self.world.t(1);
+                    if lock(&t.produced).is_none() && t.fdrops.load(SeqCst) == 0 {
+                        // the latest wake (by the number of polls it has seen) is the one that still needs a poll
+                        self.pending_wake = self.pending_wake.max(self.wake_issued_at[r]);
                     }
                 }
                 self.roles[r].cur_cmd = "";
@@ -347,6 +404,12 @@ impl Case {
     }
 
     fn command(&mut self, r: usize, name: &'static str, cmd: Cmd) -> Arr {
+        if name == "wake" {
+            self.wake_issued_at[r] = None;
+        }
+        if name == "tick" {
+            self.tick_covers = if self.roles.iter().any(|o| o.in_sched) { None } else { self.pending_wake };
+        }
         ctl::mark_running(r);
         self.roles[r].cur_cmd = name;
         if self.roles[r].tx.send(cmd).is_err() {
@@ -360,7 +423,14 @@ impl Case {
     fn release(&mut self, r: usize, site: &'static str) -> Arr {
         // bookkeeping of the action that is performed now
         match site {
-            "exec.remote.enter" | "exec.state.start_scheduling" => self.roles[r].in_sched = true,
+            "exec.remote.enter" => self.roles[r].in_sched = true,
+            "exec.state.start_scheduling" => {
+                self.roles[r].in_sched = true;
+                // the wake takes effect with this RMW: every poll that counts for it starts later
+                if self.roles[r].cur_cmd == "wake" {
+                    self.wake_issued_at[r] = Some(self.world.t(1).polls.load(SeqCst));
+                }
+            }
             "exec.state.finish_scheduling" => {
                 self.roles[r].in_window = false;
                 for (i, o) in self.roles.iter_mut().enumerate() {
@@ -422,6 +492,9 @@ impl Case {
     fn drain(&mut self) -> bool {
         let mut spins = 0;
         for _round in 0..4000 {
+            if self.budget_left() == 0 {
+                return false;
+            }
             let mut progressed = false;
             let mut parked = 0;
             for r in 0..self.roles.len() {
@@ -539,7 +612,7 @@ fn run_case(case: &Value, idx: u64, rep: &mut Report) {
     // lenient mode (regression schedules taken from the model of the code BEFORE a repair): scheduling points the
     // old model does not know are passed automatically, steps that cannot be executed are skipped, nothing is
     // compared with the model: only the contract oracle decides
-    let lenient = case["lenient"] == json!(true);
+    let mut lenient = case["lenient"] == json!(true);
     for (i, st) in steps.iter().enumerate() {
         rep.steps += 1;
         let r = role_index(st["th"].as_str().unwrap());
@@ -548,22 +621,63 @@ fn run_case(case: &Value, idx: u64, rep: &mut Report) {
         }
         let a = st["a"].as_str().unwrap();
         let next = st["next"].as_str().unwrap();
+        if c.budget_left() == 0 {
+            break;
+        }
         if lenient {
-            c.auto_advance();
-            let executable = if st["k"] == "cmd" {
-                ctl::whereis(r) == Where::Idle
-            } else {
-                matches!(ctl::whereis(r), Where::Parked(p) if p.site == a)
-            };
-            if !executable {
-                continue;
+            // keep the interleaving the schedule prescribes as far as possible: a step of thread T releases T once
+            // from wherever it is parked; a command is issued when T is idle, else T (still busy) is released once
+            if case["lenient"] == json!(true) {
+                c.auto_advance();
+            }
+            if let Some(o) = st["arg"].as_str().filter(|o| matches!(*o, "pend" | "ready")) {
+                *lock(&c.world.fallback) = Outcome::parse(o);
+            }
+            match ctl::whereis(r) {
+                Where::Parked(p) => {
+                    let regression = case["lenient"] == json!(true);
+                    if !(st["k"] == "step" && p.site == a) {
+                        // not the step the model meant: in a regression schedule skip it (the repaired code blocks
+                        // here on purpose). After a divergence: a step lets the thread take one action; a command
+                        // means the thread's previous call is over, so it is released until it is idle and the
+                        // command is then issued
+                        if regression {
+                            continue;
+                        }
+                        lock(&c.world.script).clear();
+                        if st["k"] == "step" {
+                            if let Arr::Quarantined = c.release(r, p.site) {
+                                break;
+                            }
+                            continue;
+                        }
+                        let mut n = 0;
+                        while let Where::Parked(q) = ctl::whereis(r) {
+                            n += 1;
+                            if n > 40 || c.roles[r].lost {
+                                break;
+                            }
+                            c.release(r, q.site);
+                        }
+                        if ctl::whereis(r) != Where::Idle {
+                            continue;
+                        }
+                    }
+                }
+                Where::Idle => {
+                    if st["k"] != "cmd" {
+                        continue;
+                    }
+                }
+                _ => continue,
             }
         }
         let arr = if st["k"] == "cmd" {
             if ctl::whereis(r) != Where::Idle {
                 c.divergences.push(format!("step {i}: {} should be idle for command {a}, is {:?}", c.roles[r].name, ctl::whereis(r)));
                 followed = false;
-                break;
+                lenient = true;
+                continue;
             }
             match a {
                 "tick" => c.command(r, "tick", Cmd::Tick),
@@ -595,7 +709,8 @@ fn run_case(case: &Value, idx: u64, rep: &mut Report) {
                 w => {
                     c.divergences.push(format!("step {i}: {} should be parked at {a}, is {w:?}", c.roles[r].name));
                     followed = false;
-                    break;
+                    lenient = true;
+                    continue;
                 }
             };
             if site == "exec.state.unschedule" {
@@ -618,10 +733,12 @@ fn run_case(case: &Value, idx: u64, rep: &mut Report) {
             }
             ref x => {
                 if arr_name(x) != next && !lenient {
+                    // the implementation left the model: the rest of the schedule is followed as far as it can be
+                    // executed (lenient), only the contract oracle decides from here on
                     c.divergences.push(format!("step {i}: after {a} thread {} arrived at {}, the model expects {next}",
                                                c.roles[r].name, arr_name(x)));
                     followed = false;
-                    break;
+                    lenient = true;
                 }
             }
         }
@@ -630,7 +747,7 @@ fn run_case(case: &Value, idx: u64, rep: &mut Report) {
     let fin = &case["fin"];
     let snap = c.snapshot();
     let mut diffs = vec![];
-    if lenient {
+    if case["lenient"] == json!(true) {
         c.auto_advance();
     }
     if followed && !lenient {
@@ -672,11 +789,38 @@ fn finish_case(mut c: Case, case: &Value, idx: u64, rep: &mut Report, diffs: Vec
     // ---- let every started call finish, one action at a time
     let drained = c.drain();
     let any_lost = c.roles.iter().any(|r| r.lost);
-    if !drained && !any_lost {
+    if !drained && !any_lost && !c.over_budget {
         let at: Vec<String> = (0..c.roles.len()).map(|i| format!("{}={:?}", c.roles[i].name, ctl::whereis(i))).collect();
         c.violations.push(("hang", json!({"site": "remote", "what": "calls-never-finish"}),
                            format!("the started calls do not finish although every thread is scheduled fairly and the home thread \
                                     keeps ticking (e.g. wait_for_scheduling spinning for ever): {at:?}")));
+    }
+    // ---- a completed wake from another thread must lead to a poll: the environment is fair, the home thread ticks
+    // once more; the task (still alive) must then have been polled since that wake was issued
+    if drained && !c.exec_dropped && !c.roles[0].lost && ctl::whereis(0) == Where::Idle {
+        if let Some(p0) = c.pending_wake {
+            let alive = |c: &Case| lock(&c.world.t(1).produced).is_none() && c.world.t(1).fdrops.load(SeqCst) == 0;
+            if alive(&c) && c.world.t(1).polls.load(SeqCst) == p0 {
+                {
+                    let mut sc = lock(&c.world.script);
+                    sc.clear();
+                    sc.push_back((1, Outcome::Pend));
+                }
+                c.command(0, "tick", Cmd::Tick);
+                let ok = c.drain();
+                let already = c.violations.iter().any(|v| v.1["what"] == "remote-wake-lost");
+                if ok && !already && alive(&c) && c.world.t(1).polls.load(SeqCst) == p0 {
+                    c.violations.push(("contract", json!({"site": "remote", "what": "remote-wake-lost"}),
+                        format!("wake_by_ref on another thread returned while the task was alive, the home thread ticked afterwards, \
+                                 but the task was not polled again (polls {p0} when the wake was issued, {p0} now): the runnable task is starved")));
+                }
+            }
+        }
+    }
+    if c.over_budget {
+        let at: Vec<String> = (0..c.roles.len()).map(|i| format!("{}={:?}", c.roles[i].name, ctl::whereis(i))).collect();
+        c.violations.push(("hang", json!({"site": "remote", "what": "case-time-budget-exceeded"}),
+                           format!("the case did not finish within {CASE_BUDGET_MS} ms: {at:?}")));
     }
     // ---- candidate 11: a joiner parked on Pending although the task has completed must have been woken
     if drained && c.joiner_parked() && !c.joiner_flag() {
@@ -771,17 +915,46 @@ fn finish_case(mut c: Case, case: &Value, idx: u64, rep: &mut Report, diffs: Vec
     }
     // ---- tear the threads down (lost threads stay parked for ever; they are detached)
     let mut ids = vec![];
-    // join only when every thread is idle and everything was released: a thread that still owns the executor
-    // would block in Executor::drop behind a thread that is parked for ever
-    let all_idle = released && (0..c.roles.len()).all(|i| !c.roles[i].lost && ctl::whereis(i) == Where::Idle);
-    for r in c.roles.iter_mut() {
-        if all_idle {
-            let _ = r.tx.send(Cmd::Exit);
+    // a thread is asked to exit only when it is idle; it drops what it still owns and then reports; the report is
+    // awaited with a watchdog (never a blocking join): a thread that does not report stays behind, parked or spinning
+    // until the next case bumps the epoch, and is reported
+    let mut abandoned = false;
+    for i in 0..c.roles.len() {
+        let idle = !c.roles[i].lost && ctl::whereis(i) == Where::Idle;
+        if !idle {
+            abandoned = true;
+            continue;
+        }
+        let r = &mut c.roles[i];
+        let _ = r.tx.send(Cmd::Exit);
+        let t0 = std::time::Instant::now();
+        let mut exited = false;
+        while t0.elapsed().as_millis() < 5_000 {
+            match r.rx.recv_timeout(std::time::Duration::from_millis(200)) {
+                Ok(Res::Exited) => {
+                    exited = true;
+                    break;
+                }
+                Ok(_) => {}
+                Err(std::sync::mpsc::RecvTimeoutError::Timeout) => {}
+                Err(_) => break,
+            }
+        }
+        if exited {
             if let Some(th) = r.th.take() {
                 ids.push(th.thread().id());
                 let _ = th.join();
             }
+        } else {
+            abandoned = true;
+            if released && !any_lost {
+                rep.problem("hang", json!({"site": "remote", "what": "thread-did-not-exit", "thread": r.name}),
+                            format!("case {idx}: thread {} did not finish dropping what it owned within 5 s", r.name), case, nsteps);
+            }
         }
+    }
+    if abandoned || c.over_budget {
+        ABANDONED.fetch_add(1, SeqCst);
     }
     ctl::forget(&ids);
     LOST.fetch_add(c.roles.iter().filter(|r| r.lost).count() as u64, SeqCst);
@@ -893,6 +1066,9 @@ fn stress(n: u64, seed: u64, rep: &mut Report) {
     }
 }
 
+static OVER: std::sync::atomic::AtomicU64 = std::sync::atomic::AtomicU64::new(0);
+static SKIPPED: std::sync::atomic::AtomicU64 = std::sync::atomic::AtomicU64::new(0);
+static ABANDONED: std::sync::atomic::AtomicU64 = std::sync::atomic::AtomicU64::new(0);
 static LOST: std::sync::atomic::AtomicU64 = std::sync::atomic::AtomicU64::new(0);
 static STEPS: std::sync::atomic::AtomicU64 = std::sync::atomic::AtomicU64::new(0);
 
@@ -909,12 +1085,25 @@ fn main() {
     }
     ctl::install();
     for (i, case) in cases_from_arg().enumerate() {
+        if OVER.load(SeqCst) >= MAX_ABANDONED {
+            SKIPPED.fetch_add(1, SeqCst);
+            continue;
+        }
         rep.cases += 1;
         eprintln!("@case {i}");
+        let before = ABANDONED.load(SeqCst);
+        let q0 = LOST.load(SeqCst);
+        let t0 = std::time::Instant::now();
         run_case(&case, i as u64, &mut rep);
+        // cases that were abandoned without a quarantine (= not explained by containment) or that were slow
+        if (ABANDONED.load(SeqCst) > before && LOST.load(SeqCst) == q0) || t0.elapsed().as_millis() as u64 >= CASE_BUDGET_MS {
+            OVER.fetch_add(1, SeqCst);
+        }
     }
     rep.set("actions_released", json!(STEPS.load(SeqCst)));
     rep.set("threads_quarantined", json!(LOST.load(SeqCst)));
+    rep.set("cases_abandoned", json!(ABANDONED.load(SeqCst)));
+    rep.set("cases_skipped", json!(SKIPPED.load(SeqCst)));
     rep.set("sites_released", json!(*lock(&SITES)));
     rep.finish();
     // quarantined threads are parked for ever: leave without joining them
